@@ -1,3 +1,4 @@
+import Imdlv.Generated.Consts
 import Imdlv.Lemmas.Magnet
 /-!
 # C10 — magnet links carry the infohash, name, trackers, peers and selection faithfully
